@@ -46,7 +46,9 @@ CONSTANTS Tick,         \* ring-clock units per tick
           RLens,        \* read buffer lengths
           BadFlags,     \* subset of BOOLEAN: may an entry carry an unsupported flag
           CtlOps,       \* subset of {"dropring","close","open","shimw","crash"}
-          Modes,        \* access modes a re-opened handle may have: subset of {"rw","ro","wo"}
+          Modes,        \* access modes a re-opened handle may have: subset of {"rw","ro","wo","ao","wa","ra"}
+                        \* (ao = append only, wa = write+append, ra = read+append)
+          AllowDup,     \* BOOLEAN: may the consumer push a copy of an outstanding write / fsync with the same user_data
           MaxRings, MaxOps, MaxTicks, MaxCrash
 
 VARIABLES
@@ -107,51 +109,59 @@ NewRing(e) ==
 
 \* SubmissionQueue::push (the consumer only pushes to rings it still owns and
 \* that were not wiped by a crash)
-Push(r, kind, f, off, bs, len, tgt, bad, lat, ok) ==
+Push(r, tag, kind, f, off, bs, len, tgt, bad, lat, ok) ==
     /\ Ready0 /\ Len(ops) < MaxOps
     /\ r \in 1..Len(rg) /\ rg[r].alive
     /\ ok = (Len(rg[r].sq) < rg[r].depth)
     /\ LET io == IsIo(kind) /\ ~bad IN
-       /\ P_Push(r, kind, f, tgt, bad, IF io THEN LatLo ELSE 0, IF io THEN LatHi ELSE 0, len, ok)
+       /\ P_Push(r, tag, kind, f, tgt, bad, IF io THEN LatLo ELSE 0, IF io THEN LatHi ELSE 0, len, ok)
        /\ opx' = Append(opx, [off |-> off, bytes |-> bs, lat |-> IF io THEN lat ELSE 0,
                                mode |-> IF f \in Files THEN hmode[f] ELSE "rw"])
     /\ bufs' = Append(bufs, Pristine(len))
     /\ rg' = IF ok THEN [rg EXCEPT ![r].sq = Append(@, Len(ops) + 1)] ELSE rg
-    /\ last' = [a |-> "push", r |-> r, ud |-> Len(ops) + 1, ok |-> ok]
+    /\ last' = [a |-> "push", r |-> r, ud |-> Len(ops) + 1, tag |-> tag, ok |-> ok]
     /\ UNCHANGED <<vis, hmode, fs, dur, tw, tdur, nticks, ncrash>>
 
-PushOk(r, kind, f, off, bs, len, tgt, bad, lat)   == Push(r, kind, f, off, bs, len, tgt, bad, lat, TRUE)
-PushFail(r, kind, f, off, bs, len, tgt, bad, lat) == Push(r, kind, f, off, bs, len, tgt, bad, lat, FALSE)
+PushOk(r, tag, kind, f, off, bs, len, tgt, bad, lat)   == Push(r, tag, kind, f, off, bs, len, tgt, bad, lat, TRUE)
+PushFail(r, tag, kind, f, off, bs, len, tgt, bad, lat) == Push(r, tag, kind, f, off, bs, len, tgt, bad, lat, FALSE)
 
-\* RingState::cancel on the pools (infl, ready) for cancel c with target t at `now`
-InReady(rd, t) == \E i \in 1..Len(rd) : \E e \in rd[i] : e.ud = t
-RemoveReady(rd, t) ==
-    LET cut == [i \in 1..Len(rd) |-> {e \in rd[i] : e.ud # t}]
-    IN SelectSeq(cut, LAMBDA b : b # {})
+\* RingState::cancel on the pools (infl, ready) for cancel c with target user_data t at `now`.
+\* The code takes the first match in the Vec `inflight` (whose order swap_remove perturbs: any
+\* match), else the first match in the deque `ready` (earliest batch; any match inside it), and
+\* drops exactly that one scheduled completion.
+TagOf(e) == ops[e.ud].tag
 Imm(u, code) == [ud |-> u, when |-> now, x |-> FALSE, code |-> code]
-CancelOn(p, c, t) ==
-    IF \E e \in p.infl : e.ud = t
-    THEN [infl |-> {e \in p.infl : e.ud # t} \cup {Imm(t, ECANCELED), Imm(c, 0)}, ready |-> p.ready]
-    ELSE IF InReady(p.ready, t)
-    THEN [infl |-> p.infl \cup {Imm(t, ECANCELED), Imm(c, 0)}, ready |-> RemoveReady(p.ready, t)]
-    ELSE [infl |-> p.infl \cup {Imm(c, ENOENT)}, ready |-> p.ready]
+DropFromReady(rd, i, e) ==
+    LET cut == [j \in 1..Len(rd) |-> IF j = i THEN rd[j] \ {e} ELSE rd[j]]
+    IN SelectSeq(cut, LAMBDA b : b # {})
+CancelOutcomes(p, c, t) ==
+    LET mi == {e \in p.infl : TagOf(e) = t}
+        bi == {i \in 1..Len(p.ready) : \E e \in p.ready[i] : TagOf(e) = t}
+    IN IF mi # {}
+       THEN {[infl |-> (p.infl \ {e}) \cup {Imm(e.ud, ECANCELED), Imm(c, 0)}, ready |-> p.ready] : e \in mi}
+       ELSE IF bi # {}
+       THEN LET i == CHOOSE i \in bi : \A j \in bi : i <= j IN
+            {[infl |-> p.infl \cup {Imm(e.ud, ECANCELED), Imm(c, 0)}, ready |-> DropFromReady(p.ready, i, e)]
+                : e \in {e \in p.ready[i] : TagOf(e) = t}}
+       ELSE {[infl |-> p.infl \cup {Imm(c, ENOENT)}, ready |-> p.ready]}
 
-\* schedule_pending: the SQ entries in order
-RECURSIVE Schedule(_, _)
-Schedule(p, q) ==
-    IF q = <<>> THEN p
+\* schedule_pending: the SQ entries in order (the set of pools the batch may lead to)
+RECURSIVE ScheduleSet(_, _)
+ScheduleSet(P, q) ==
+    IF q = <<>> THEN P
     ELSE LET u == Head(q)  o == ops[u] IN
-         Schedule(
-            IF o.bad THEN [p EXCEPT !.infl = @ \cup {Imm(u, EINVAL)}]
-            ELSE IF o.kind = "cancel" THEN CancelOn(p, u, o.tgt)
-            ELSE [p EXCEPT !.infl = @ \cup {[ud |-> u, when |-> now + opx[u].lat, x |-> TRUE, code |-> 0]}],
+         ScheduleSet(
+            UNION {IF o.bad THEN {[p EXCEPT !.infl = @ \cup {Imm(u, EINVAL)}]}
+                   ELSE IF o.kind = "cancel" THEN CancelOutcomes(p, u, o.tgt)
+                   ELSE {[p EXCEPT !.infl = @ \cup {[ud |-> u, when |-> now + opx[u].lat, x |-> TRUE, code |-> 0]}]}
+                   : p \in P},
             Tail(q))
 
 Submit(r) ==
     /\ Ready0 /\ r \in 1..Len(rg) /\ rg[r].alive
     /\ P_Submit(r)
-    /\ LET p == Schedule([infl |-> rg[r].infl, ready |-> rg[r].ready], rg[r].sq)
-       IN rg' = [rg EXCEPT ![r].sq = <<>>, ![r].infl = p.infl, ![r].ready = p.ready]
+    /\ \E p \in ScheduleSet({[infl |-> rg[r].infl, ready |-> rg[r].ready]}, rg[r].sq) :
+          rg' = [rg EXCEPT ![r].sq = <<>>, ![r].infl = p.infl, ![r].ready = p.ready]
     /\ last' = [a |-> "submit", r |-> r, n |-> Len(rg[r].sq)]
     /\ UNCHANGED <<vis, opx, hmode, fs, dur, tw, tdur, bufs, nticks, ncrash>>
 
@@ -190,7 +200,9 @@ PopSome(r) ==
                    valid == run /\ HandleValid(o)
                    \* the handle grants the access the operation needs (else -EBADF, no effect; the
                    \* synchronous API refuses it as well: PermissionDenied)
-                   acc   == (o.kind = "read" /\ x.mode # "wo") \/ (o.kind = "write" /\ x.mode # "ro") \/ o.kind = "fsync"
+                   acc   == \/ o.kind = "read" /\ x.mode \in {"rw", "ro", "ra"}
+                            \/ o.kind = "write" /\ x.mode \in {"rw", "wo", "ao", "wa", "ra"}   \* append grants write access
+                            \/ o.kind = "fsync"
                    c  == IF valid THEN fs[o.f] ELSE <<>>
                    res == IF ~e.x THEN e.code
                           ELSE IF ~valid \/ ~acc THEN EBADF
@@ -209,12 +221,12 @@ PopSome(r) ==
                    dur1 == IF valid /\ acc /\ o.kind = "fsync" THEN [dur EXCEPT ![o.f] = c] ELSE dur
                    tw1  == IF doTw /\ acc /\ o.kind = "write" THEN [tw EXCEPT ![o.f] = Overlay(tc, x.off, x.bytes)] ELSE tw
                    tdur1 == IF doTw /\ acc /\ o.kind = "fsync" THEN [tdur EXCEPT ![o.f] = tc] ELSE tdur
-               IN /\ P_Cqe(r, u, res, IF o.kind = "read" THEN data ELSE <<>>, exp, expd, fs1 = tw1)
+               IN /\ P_Cqe(r, o.tag, res, IF o.kind = "read" THEN data ELSE <<>>, exp, expd, fs1 = tw1)
                   /\ rg' = [rg EXCEPT ![r].infl = @ \ Matured(r), ![r].ready = r2]
                   /\ vis' = [vis EXCEPT ![r] = @ - 1]
                   /\ fs' = fs1 /\ dur' = dur1 /\ tw' = tw1 /\ tdur' = tdur1
                   /\ bufs' = [bufs EXCEPT ![u] = data]
-                  /\ last' = [a |-> "pop", r |-> r, some |-> TRUE, ud |-> u, res |-> res,
+                  /\ last' = [a |-> "pop", r |-> r, some |-> TRUE, ud |-> u, tag |-> o.tag, res |-> res,
                               amb |-> Cardinality(r1[1]) > 1]
     /\ UNCHANGED <<opx, hmode, nticks, ncrash>>
 
@@ -292,8 +304,15 @@ PushArgsOk(kind, f, off, bs, len, tgt) ==
 PushMC(r, kind, f, off, bs, len, tgt, bad, lat) ==
     /\ PushArgsOk(kind, f, off, bs, len, tgt)
     /\ (IsIo(kind) /\ ~bad) \/ lat = LatLo
-    /\ \/ PushOk(r, kind, f, off, bs, len, tgt, bad, lat)
-       \/ PushFail(r, kind, f, off, bs, len, tgt, bad, lat)
+    /\ \/ PushOk(r, Len(ops) + 1, kind, f, off, bs, len, tgt, bad, lat)      \* a fresh user_data
+       \/ PushFail(r, Len(ops) + 1, kind, f, off, bs, len, tgt, bad, lat)
+\* a copy of an outstanding write / fsync (same ring, handle, offset, payload) under the same user_data
+PushDup(r, u, lat) ==
+    /\ AllowDup /\ u \in Uds /\ ops[u].ring = r /\ ops[u].kind \in {"write", "fsync"} /\ ~ops[u].bad
+    /\ ops[u].st \in {"sq", "pend"}
+    /\ fh[ops[u].f].gen = ops[u].gen /\ fh[ops[u].f].open = ops[u].hopen /\ hmode[ops[u].f] = opx[u].mode
+    /\ \/ PushOk(r, ops[u].tag, ops[u].kind, ops[u].f, opx[u].off, opx[u].bytes, 0, 0, FALSE, lat)
+       \/ PushFail(r, ops[u].tag, ops[u].kind, ops[u].f, opx[u].off, opx[u].bytes, 0, 0, FALSE, lat)
 PushRead(r, f, off, len, bad, lat)  == "read" \in Kinds /\ PushMC(r, "read", f, off, <<>>, len, 0, bad, lat)
 PushWrite(r, f, off, bs, bad, lat)  == "write" \in Kinds /\ PushMC(r, "write", f, off, bs, 0, 0, bad, lat)
 PushFsync(r, f, bad, lat)           == "fsync" \in Kinds /\ PushMC(r, "fsync", f, 0, <<>>, 0, 0, bad, lat)
@@ -316,6 +335,7 @@ NextNoEnd ==
             PushWrite(r, f, off, bs, bad, lat)
     \/ \E r \in 1..MaxRings, bad \in BadFlags, lat \in LatChoices, f \in Files : PushFsync(r, f, bad, lat)
     \/ \E r \in 1..MaxRings, bad \in BadFlags, tgt \in 1..MaxOps : PushCancel(r, tgt, bad)
+    \/ \E r \in 1..MaxRings, u \in 1..MaxOps, lat \in LatChoices : PushDup(r, u, lat)
     \/ \E r \in 1..MaxRings : SubmitMC(r)
     \/ \E r \in 1..MaxRings : SyncMC(r)
     \/ \E r \in 1..MaxRings : PopSome(r)
@@ -342,7 +362,11 @@ TypeOK ==
 OnePerOutstanding ==
     \A r \in 1..Len(rg) :
         /\ {rg[r].sq[i] : i \in 1..Len(rg[r].sq)} = {u \in Uds : ops[u].ring = r /\ ops[u].st = "sq"}
-        /\ RingUds(r) = {u \in Uds : ops[u].ring = r /\ ops[u].st = "pend"}
+        \* (per user_data: entries tagged alike are interchangeable copies, the history attributes a
+        \* completion to the lowest-numbered one)
+        /\ \A t \in {ops[u].tag : u \in Uds} :
+               Cardinality({u \in RingUds(r) : ops[u].tag = t})
+                 = Cardinality({u \in Uds : ops[u].ring = r /\ ops[u].st = "pend" /\ ops[u].tag = t})
         /\ Cardinality(rg[r].infl) + ReadyLen(rg[r].ready) = Cardinality(RingUds(r))
 \* the ring code changed the filesystem exactly as the synchronous API changed the twin
 SameEffect == fs = tw /\ dur = tdur
@@ -352,6 +376,8 @@ NoEmptyBatch == \A r \in 1..Len(rg) : \A i \in 1..Len(rg[r].ready) : rg[r].ready
 ImplInv == TypeOK /\ OnePerOutstanding /\ SameEffect /\ NoEmptyBatch
 
 \* vacuity witnesses (their *violation* is expected; checked by dedicated runs)
+W_DupCancel      == ~(\E k \in CqIdx : cqs[k].res = ECANCELED /\ cqs[k].stb = "pend" /\
+                          \E c \in Uds : EffCancel(c) /\ Cardinality(ops[c].tcands) >= 2 /\ ops[c].tgt = cqs[k].tag)
 W_CancelInflight == ~(\E k \in CqIdx : cqs[k].res = ECANCELED /\ cqs[k].stb = "pend")
 W_CancelMissing  == ~(\E k \in CqIdx : cqs[k].res = ENOENT)
 W_FullPush       == ~(\E u \in Uds : ops[u].st = "rej")
